@@ -66,6 +66,9 @@ type Conn struct {
 	// (so that a hook can accept a prefix, wait, and accept the rest read
 	// from the caller's slice after the wait).
 	WriteHook func(b []byte, accept func([]byte)) (int, error)
+	// CloseHook, when set, runs at the start of every Close, before the connection is marked closed
+	// and without any lock held: a transport whose Close takes time (a TLS alert, a lingering socket).
+	CloseHook func()
 
 	Local, Remote net.Addr
 
@@ -244,6 +247,9 @@ func (c *Conn) Write(b []byte) (int, error) {
 
 // Close closes the connection: parked and later reads and writes fail.
 func (c *Conn) Close() error {
+	if c.CloseHook != nil {
+		c.CloseHook()
+	}
 	c.mu.Lock()
 	c.closes++
 	if !c.closed {
